@@ -869,6 +869,50 @@ def translate(repo):
     out.append(f"Definition alloc_take (s : pf) (h : hdr) (ft v i : Z) : bool :=\n  ({at.bex(l2.test)}"
                + "".join(f" && negb {e}" for e in excl) + ").\n")
 
+    # ---- free_cluster_chain: what a released entry is set to, and how the allocation hint follows the released clusters.  Shape: _freeclus = <free mark> /
+    # with lock: tmp_fat = self.fat.copy(); for cl in self.get_cluster_chain(cluster): tmp_fat[cl] = _freeclus; self.first_free_cluster = <e(cl, hint)>;
+    # self.fat = tmp_fat
+    fc = find_fn(pfc, "free_cluster_chain")
+    body = [st_ for st_ in fc.body if not (isinstance(st_, ast.Expr) and isinstance(st_.value, ast.Constant))]
+    if len(body) != 2 or not (isinstance(body[0], ast.Assign) and isinstance(body[0].targets[0], ast.Name) and isinstance(body[1], ast.With)):
+        raise Unsupported("free_cluster_chain shape")
+    mark_name = body[0].targets[0].id
+    mark = at.ex(body[0].value)
+    wb = body[1].body
+    if len(wb) != 3 or not (isinstance(wb[0], ast.Assign) and isinstance(wb[0].targets[0], ast.Name) and isinstance(wb[1], ast.For) and isinstance(wb[2], ast.Assign)):
+        raise Unsupported("free_cluster_chain locked section")
+    tmp = wb[0].targets[0].id
+    cp = wb[0].value
+    if not (isinstance(cp, ast.Call) and isinstance(cp.func, ast.Attribute) and cp.func.attr == "copy" and isinstance(cp.func.value, ast.Attribute)
+            and cp.func.value.attr == "fat" and not cp.args):
+        raise Unsupported("free_cluster_chain working copy")
+    if not (isinstance(wb[2].targets[0], ast.Attribute) and wb[2].targets[0].attr == "fat" and isinstance(wb[2].value, ast.Name) and wb[2].value.id == tmp):
+        raise Unsupported("free_cluster_chain swap")
+    fl = wb[1]
+    it = fl.iter
+    if not (isinstance(fl.target, ast.Name) and isinstance(it, ast.Call) and isinstance(it.func, ast.Attribute) and it.func.attr == "get_cluster_chain"
+            and len(it.args) == 1 and isinstance(it.args[0], ast.Name) and it.args[0].id == fc.args.args[1].arg and not fl.orelse and len(fl.body) == 2):
+        raise Unsupported("free_cluster_chain loop")
+    clv = fl.target.id
+    s0, s1 = fl.body
+    if not (isinstance(s0, ast.Assign) and isinstance(s0.targets[0], ast.Subscript) and isinstance(s0.targets[0].value, ast.Name) and s0.targets[0].value.id == tmp
+            and isinstance(s0.targets[0].slice, ast.Name) and s0.targets[0].slice.id == clv and isinstance(s0.value, ast.Name) and s0.value.id == mark_name):
+        raise Unsupported("free_cluster_chain entry update")
+    if not (isinstance(s1, ast.Assign) and isinstance(s1.targets[0], ast.Attribute) and s1.targets[0].attr == "first_free_cluster"):
+        raise Unsupported("free_cluster_chain hint update")
+
+    def hint_ex(n):
+        if isinstance(n, ast.Name) and n.id == clv:
+            return "cl"
+        if isinstance(n, ast.Attribute) and isinstance(n.value, ast.Name) and n.value.id == "self" and n.attr == "first_free_cluster":
+            return "hint"
+        if isinstance(n, ast.Call) and isinstance(n.func, ast.Name) and n.func.id in ("min", "max") and len(n.args) == 2 and not n.keywords:
+            return f"(Z.{n.func.id} {hint_ex(n.args[0])} {hint_ex(n.args[1])})"
+        raise Unsupported("free_cluster_chain hint expression")
+    out.append("(* free_cluster_chain: the value a released entry gets; the hint after the release of cluster [cl] *)\n")
+    out.append(f"Definition free_mark (ft : Z) : Z :=\n  {mark}.\n")
+    out.append(f"Definition free_hint_step (cl hint : Z) : Z :=\n  {hint_ex(s1.value)}.\n")
+
     out.append("End Gen.\n")
     return "".join(out)
 
